@@ -917,6 +917,30 @@ func init() {
 						rep.AddOracle(OracleFailure{Property: "C16", Lane: "pack-spelling", What: "a Packer that packed another directory before produces a different slug than a fresh Packer with the same options (relative allow-list prefix)", Input: c})
 					}
 					rep.Count("shared-packer")
+					// C05 through the same history: the second tree has a link into the FIRST root's
+					// allow-listed directory; for the second root that target is not allow-listed, so it
+					// must not be stored as a link (seed C05-d: the relative prefix frozen to the first root)
+					extra := filepath.Join(arena2, "p/src/zz_into_first")
+					if os.Symlink(filepath.Join(filepath.Dir(filepath.Dir(abs)), "p/ext/file"), extra) == nil {
+						shared2 := mkP()
+						// the first root contains an allow-listed out-of-tree link, so that the allow-list is
+						// consulted (and, on defective code, frozen) during the first Pack
+						first := filepath.Join(abs, "zz_first")
+						os.Symlink("../ext/file", first)
+						packWith(shared2, abs)
+						os.Remove(first)
+						var buf bytes.Buffer
+						if _, err := shared2.Pack(arena2+"/p/src", &buf); err == nil {
+							ents, _, _ := decodeSlug(buf.Bytes())
+							for _, e := range ents {
+								if e.Typ == tar.TypeSymlink && e.Name == "zz_into_first" {
+									rep.AddOracle(OracleFailure{Property: "C05", Lane: "pack-spelling", What: "a link to a target outside the source directory that is not allow-listed for this root is stored as a link by a Packer that packed another root before: " + e.Link, Input: c})
+								}
+							}
+						}
+						rep.Count("shared-packer-c05")
+						os.Remove(extra)
+					}
 					chmodAll(filepath.Dir(arena2))
 					os.RemoveAll(filepath.Dir(arena2))
 				}
